@@ -3,7 +3,8 @@ Line-protocol glue for the syncer model (C15).
   SYN <depth> <first> <pos> <rows> <chain> <m> <upTo>
   pos: `-` or `number/hash-id` (hash id 0 = the empty hash)       rows: `;`-separated `key/block/payload` (or `-`)
   chain: `;`-separated `number/hash-id/parent-id/key:payload+key:payload` (events `-` if none), blocks 0 … m
-  upTo: how far the call got, `-` if it stored nothing
+  upTo: how far the call got, `-` if it stored nothing after the reorg check, `x` if the call failed before or
+        inside the reset transaction (nothing changed)
   → `pos=<…> rows=<key/block/payload;…>` rows sorted by (block, key)
 -/
 import Shutter.Model.Syncer
@@ -55,8 +56,8 @@ def step (toks : List String) : String :=
       let p : P := { depth := d, first := f }
       let st : St := { pos := pos, rows := rows }
       let st' := match nat? upTo with
-        | some u => sync p st c m u
-        | none => reorgReset p st m (c m).parent
+        | some u => syncEnding p st c m (.reached u)
+        | none => if upTo = "x" then syncEnding p st c m .resetFailed else reorgReset p st m (c m).parent
       let sorted := sortBy rowLt st'.rows
       s!"pos={showPos st'.pos} rows=" ++ (if sorted.isEmpty then "-" else
         ";".intercalate (sorted.map (fun r => s!"{r.key}/{r.block}/{r.payload}")))
